@@ -1,3 +1,5 @@
-import CwMt.Model.EngineSpec
-namespace CwMt.EngineB
-end CwMt.EngineB
+import CwMt.Proofs.EngineB_Wire
+import CwMt.Proofs.EngineB_Registry
+import CwMt.Proofs.EngineB_Engine
+import CwMt.Proofs.EngineB_Validate
+/- Lemmas referenced by CwMt/Props/{C04,C10,C11,C12,C13,C19}.lean (namespace `CwMt.EngineB`). -/
